@@ -138,6 +138,9 @@ for mut, what in [("skip_one", "IdIterator skipping only one removed id"), ("cle
     r = tlc("simple/MatrixImpl", "MCMatrixImplNeg_%s.cfg" % mut, workers=4, timeout=300)
     expect("MatrixImpl mutant %s violates Inv: %s" % (mut, what), any("Invariant Inv is violated" in e for e in r.errors), str(r.errors[:1]))
 
+r = tlc("algo/DomCHK", "MCDomCHKNeg_sibling_shortcut.cfg", workers=6, timeout=300)
+expect("DomCHK mutant sibling_shortcut violates Inv: intersect returning the common parent also for equal fingers", any("Invariant Inv is violated" in e for e in r.errors), str(r.errors[:1]))
+
 bad = [r for r in results if not r["ok"]]
 os.makedirs(os.path.join(VERIF, "evidence"), exist_ok=True)
 json.dump({"tests": results, "failed": len(bad)}, open(os.path.join(VERIF, "evidence", "selftest.json"), "w"), indent=1)
